@@ -132,6 +132,10 @@ var xUnits = []xUnit{
 	// ... and its scaling loop: every static weight scaled to the range, positive ones summed and recorded
 	{Name: "tr_BSWL_scale", Dir: "tars/selector", Func: "BuildStaticWeightList", From: "var weightToId []pair", To: "for idx, node := range endpoints {",
 		Outs: []string{"totalWeight", "weightToId", "idToWeight", "staticWeightRouterCache"}},
+	// ... and the smooth-weighted-round-robin rounds: sort by (current value, String()), take the last, re-weigh
+	{Name: "tr_BSWL_rounds", Dir: "tars/selector", Func: "BuildStaticWeightList", From: "for i := 0; i < totalWeight; i++ {", To: "return staticWeightRouterCache",
+		After: []string{}, Fresh: []string{"weightToId", "staticWeightRouterCache"},
+		Methods: map[string]xOracle{"String": {"ep_string", "go_endpoint_Endpoint -> list N"}}},
 	// the end of endpoint.Parse: from the flag variables to the Endpoint value (without its cache key)
 	{Name: "tr_Parse_build", Dir: "tars/util/endpoint", Func: "Parse", From: "isTcp := int32(0)", To: "e := Endpoint{",
 		Outs: []string{"e"}, After: []string{"e.Key = e.String()", "return e"}},
@@ -388,6 +392,14 @@ func xlateUnit(root string, u *xUnit, units []xUnit, ld *xLoader, records map[st
 		for _, n := range onames {
 			params = append(params, "("+u.Oracles[n].Name+" : "+u.Oracles[n].Type+")")
 		}
+		var mnames []string
+		for n := range u.Methods {
+			mnames = append(mnames, n)
+		}
+		sort.Strings(mnames)
+		for _, n := range mnames {
+			params = append(params, "("+u.Methods[n].Name+" : "+u.Methods[n].Type+")")
+		}
 	}
 	body := fd.Body.List
 	var stateT, final string
@@ -594,6 +606,7 @@ func xlateUnit(root string, u *xUnit, units []xUnit, ld *xLoader, records map[st
 		term, stateT, _ = x.state(fd, outs)
 		final = "Next " + term
 	}
+	x.fnBody = fd.Body.List
 	x.body = body
 	if len(body) > 0 {
 		x.lo, x.hi = body[0].Pos(), body[len(body)-1].End()
